@@ -33,7 +33,7 @@ func (c16) Rule() string {
 		"Oracle (closed-form layout model): NewOrigin(p).String() == model block; len == toOriginLength(n) == 10*ceil(n/60)+ceil(n/10)+n; fromOriginLength(len) == n; Len() == n before and after Bytes(); Bytes() == p; " +
 		"an undecoded Origin over the model block has Len() == n and Bytes() == p; the fast validator accepts the LF block, the slow parser accepts the LF block and its CRLF twin and the Origin it yields decodes to p; " +
 		"a hand-written minimal GenBank record with that ORIGIN read through seqio.NewAutoScanner gives Len == n and Bytes == p for LF and CRLF; malformed twins: both paths must reject and nothing may panic (the scanner is only watched for panics on them); a twin whose declared length ends at a line end with whole surplus lines after it (an intact block for the block readers) is read as a record with LF and with CRLF line ends: both must be rejected, or both read with the same residues. " +
-		"index widths: NewOrigin of 10^(w-1)+81 residues for w = 5..9 must equal the model block byte for byte, report Len() == n and decode to the residues. streams: 2..4 hand-written records (LF: fast path, CRLF: slow path) scanned to the end first, then every record decoded: Len() and Bytes() of each must be its own. non-trivial: at least one residue (n >= 1) or a length-function range; distinct: canonical case text (kind, n, alphabet, sub-seed, malformation parameters). After decoding, the scanned record is derived through WithFeatures / WithTopology / WithInfo: Len, residues and printed block unchanged; a sixth malformed twin has an empty line before line k. Records that name a CONTIG and carry residues as well are written and read back. A seventh twin pads one line or every line with 1..9 blanks: the LF record and its CRLF twin are read alike (judged at record level only)."
+		"index widths: NewOrigin of 10^(w-1)+81 residues for w = 5..9 must equal the model block byte for byte, report Len() == n and decode to the residues. streams: 2..4 hand-written records (LF: fast path, CRLF: slow path) scanned to the end first, then every record decoded: Len() and Bytes() of each must be its own. non-trivial: at least one residue (n >= 1) or a length-function range; distinct: canonical case text (kind, n, alphabet, sub-seed, malformation parameters). After decoding, the scanned record is derived through WithFeatures / WithTopology / WithInfo: Len, residues and printed block unchanged; a sixth malformed twin has an empty line before line k. Records that name a CONTIG and carry residues as well are written and read back. A seventh twin pads one line or every line with 1..9 blanks: the LF record and its CRLF twin are read alike (judged at record level only). After a stream was decoded, 700 bytes are appended to the first record's residues and a prefix of them is handed back through WithBytes; half of the streams carry a remark behind ORIGIN."
 }
 
 func (c16) Assumptions() []string {
@@ -79,7 +79,7 @@ func (c16) RequiredBuckets(tier string) []string {
 	for _, b := range c16BadBytes {
 		out = append(out, fmt.Sprintf("badbyte|%d", b))
 	}
-	out = append(out, "sep|first-of-line", "sep|inner", "record|contig-only", "record|contig-and-origin", "record|long", "idxw-large|5", "idxw-large|6", "idxw-large|7", "idxw-large|8", "idxw-large|9", "stream:collected-then-decoded", "stream:slow-path", "stream:fast-path", "malformed:intact-declared-block-then-surplus-lines")
+	out = append(out, "sep|first-of-line", "sep|inner", "record|contig-only", "record|contig-and-origin", "record|long", "idxw-large|5", "idxw-large|6", "idxw-large|7", "idxw-large|8", "idxw-large|9", "stream:collected-then-decoded", "stream:slow-path", "stream:fast-path", "stream:origin-line-with-a-remark", "malformed:intact-declared-block-then-surplus-lines")
 	for b := 33; b <= 126; b++ {
 		out = append(out, fmt.Sprintf("res|%d", b))
 	}
@@ -154,6 +154,10 @@ func c16Residues(n int, alpha string, sub int64) []byte {
 }
 
 // c16Record writes a minimal GenBank record by hand around an ORIGIN block.
+// c16OriginRemark is put behind ORIGIN on the ORIGIN line when set (the format
+// allows free text there; the block starts on the next line all the same).
+var c16OriginRemark string
+
 func c16Record(declared int, block []byte, crlf bool) []byte {
 	var b bytes.Buffer
 	fmt.Fprintf(&b, "LOCUS       C16SEQ %20d bp    DNA     linear   UNA 01-JAN-2020\n", declared)
@@ -161,7 +165,7 @@ func c16Record(declared int, block []byte, crlf bool) []byte {
 	if declared > 0 {
 		fmt.Fprintf(&b, "FEATURES             Location/Qualifiers\n     source          1..%d\n", declared)
 	}
-	b.WriteString("ORIGIN      \n")
+	b.WriteString("ORIGIN      " + c16OriginRemark + "\n")
 	b.Write(block)
 	b.WriteString("//\n")
 	if crlf {
@@ -1127,6 +1131,8 @@ func (m c16) Run(c *fw.Ctx) {
 		var text []byte
 		crlf := r.Intn(3) != 0
 		var lens []int
+		remark := []string{"", "", "1 bp upstream of EcoRI site.", "Chromosome 1; 12.5 cM"}[r.Intn(4)]
+		c16OriginRemark = remark
 		for i := 0; i < k; i++ {
 			n := []int{1, 9, 10, 59, 60, 61, 119, 120, 121}[r.Intn(9)]
 			if r.Intn(2) == 0 {
@@ -1137,10 +1143,15 @@ func (m c16) Run(c *fw.Ctx) {
 			lens = append(lens, n)
 			text = append(text, c16Record(n, model.OriginBlock(p), crlf)...)
 		}
+		c16OriginRemark = ""
 		if c.Replaying() && c.Seq() != c.ReplaySeq {
 			continue
 		}
 		enc := fmt.Sprintf("stream of %d records, lengths %v, crlf=%v, decoded after the whole stream was scanned", k, lens, crlf)
+		if remark != "" {
+			enc += fmt.Sprintf(", ORIGIN lines carry the remark %q", remark)
+			c.Bucket("stream:origin-line-with-a-remark")
+		}
 		c.Begin(enc)
 		c.Count(fmt.Sprintf("stream|%v|%v|%x", lens, crlf, want[0]), true)
 		c.Bucket("stream:collected-then-decoded")
@@ -1177,6 +1188,27 @@ func (m c16) Run(c *fw.Ctx) {
 				c.Violate("stream:record-holds-other-residues", enc, fmt.Sprintf("record %d: %d residues %q", i+1, len(want[i]), clipS(string(want[i]), 80)), fmt.Sprintf("Len()=%d, %q", ln, clipS(string(got), 80)))
 				break
 			}
+		}
+		// what a caller does with the residues of one record (add a tail to
+		// them, hand a shorter stretch of them back to the record) stays with
+		// that record.
+		if pn, val, site, stack := fw.Guard(func() {
+			b0 := vals[0].Bytes()
+			_ = append(b0, bytes.Repeat([]byte("x"), 700)...)
+			for i := 1; i < len(vals); i++ {
+				if got := vals[i].Bytes(); !bytes.Equal(got, want[i]) {
+					c.Violate("stream:appending-to-one-record's-residues-changes-another", enc, fmt.Sprintf("record %d: %q", i+1, clipS(string(want[i]), 80)), fmt.Sprintf("%q", clipS(string(got), 80)))
+					return
+				}
+			}
+			if m := len(b0) / 2; m > 0 {
+				sh := gts.WithBytes(vals[0], b0[:m])
+				if gts.Len(sh) != m || !bytes.Equal(sh.Bytes(), want[0][:m]) {
+					c.Violate("stream:WithBytes-of-a-shorter-stretch-of-the-record's-own-residues", enc, fmt.Sprintf("Len %d, %q", m, clipS(string(want[0][:m]), 80)), fmt.Sprintf("Len %d, %q", gts.Len(sh), clipS(string(sh.Bytes()), 80)))
+				}
+			}
+		}); pn {
+			c.ViolateX("stream:reuse:"+panicClass(site, val), enc, "no panic", fmt.Sprint(val), stack, nil)
 		}
 	}
 }
